@@ -179,28 +179,37 @@ def run(ctx: Ctx):
                   f"{an} should be {show(exp)}, found {show(got) if got else None}", P_TYPES)
 
     # directions
-    dtab = t.tables.get("_MESSAGE_DIRECTION")
-    if not isinstance(dtab, ast.Dict):
-        raise AnalysisError(f"{t.rel}: _MESSAGE_DIRECTION is not a dict display")
-    it = microeval.Interp(name=t.rel, extra_globals=dict(t.str_consts))
-    dirs = it.eval(dtab, {})
-    it.globals["_MESSAGE_DIRECTION"] = dirs
+    # message_direction() is folded for every method with the module level of types.py available (whatever the table
+    # behind it is called and however its values are spelled); the table itself is compared too when it is the dict
+    # message_direction reads
+    from .. import special as _special
+    it = _special.types_interp(t)
     fn = t.functions.get("message_direction")
     if fn is None:
         raise AnalysisError(f"{t.rel}: message_direction not found")
     ctx.fn("types.py:message_direction")
+    free = {n_.id for n_ in ast.walk(fn) if isinstance(n_, ast.Name) and isinstance(n_.ctx, ast.Load)}
+    dirs = None
+    for nm in sorted(free):
+        v = it.globals.get(nm)
+        if isinstance(v, dict) and v and all(isinstance(k_, str) for k_ in v):
+            dirs = {k_: (x.fields.get("value") if isinstance(x, microeval.Record) else x) for k_, x in v.items()}
+
+    def as_str(r):
+        return r.fields.get("value") if isinstance(r, microeval.Record) else r
     for ms, (msg, kind) in sorted(methods.items()):
-        ctx.check(dirs.get(ms) == msg["messageDirection"], "direction-table", f"method={ms}",
-                  f"_MESSAGE_DIRECTION gives {dirs.get(ms)!r}, metamodel says {msg['messageDirection']!r}", P_TYPES)
+        if dirs is not None:
+            ctx.check(dirs.get(ms) == msg["messageDirection"], "direction-table", f"method={ms}",
+                      f"the direction table gives {dirs.get(ms)!r}, metamodel says {msg['messageDirection']!r}", P_TYPES)
         try:
-            r = it.call(fn, [ms])
+            r = as_str(it.call(fn, [ms]))
         except microeval.Raised as e:
             r = f"<raises {e.exc_name}>"
         ctx.check(r == msg["messageDirection"], "direction-function", f"method={ms}",
                   f"message_direction({ms!r}) folds to {r!r}, metamodel says {msg['messageDirection']!r}", P_TYPES,
                   fn.lineno, sample={"method": ms, "direction": r})
-    for ms in sorted(dirs):
-        ctx.check(ms in methods, "no-extra-method", f"direction:{ms}", f"{ms!r} in _MESSAGE_DIRECTION is not a method", P_TYPES)
+    for ms in sorted(dirs or {}):
+        ctx.check(ms in methods, "no-extra-method", f"direction:{ms}", f"{ms!r} in the direction table is not a method", P_TYPES)
     # MessageDirection enum
     md = t.classes.get("MessageDirection")
     want_dirs = sorted({m["messageDirection"] for m, _ in mm.all_methods()})
